@@ -66,7 +66,7 @@ CountOwner(H, owner) == Cardinality({h \in H : h.owner = owner})
 Act(op) ==
   [op |-> op, kind |-> "", anim |-> FALSE, outcome |-> "", spec |-> "", rep |-> 0,
    cached |-> FALSE, pos |-> 0, size |-> "", term |-> 0, animated |-> FALSE,
-   fault |-> "none"]
+   fault |-> "none", during |-> ""]
 
 Out(s, a, res, frame, rendered, gcMax, exhausted, nframes) ==
   [a |-> a, res |-> res, frame |-> frame, rendered |-> rendered, gcMax |-> gcMax,
@@ -135,9 +135,18 @@ ApFormat(s, a) ==
       IF a.fault = "open" THEN 0 ELSE GcIfFile(s), FALSE, 0)
 
 (* ---------------------------------- draw --------------------------------- *)
+(* `during`: while the animation is running (between two frames) the USER sets  *)
+(* another size.  Modelled for a FIXED size on entry: a dynamic size is pinned   *)
+(* by the library for the duration of a render and put back at its end.         *)
+DuringOK(s, a) ==
+  \/ a.during = ""
+  \/ /\ a.during \in Sizes \ {s.size}
+     /\ a.animated /\ s.anim /\ ~s.closed /\ s.size # "dyn" /\ a.fault = "none"
+
 EnDraw(s, a) ==
   /\ s.kind # "none"
   /\ FaultOK(s, a)
+  /\ DuringOK(s, a)
   /\ (IF a.animated THEN a.rep \in {1, 2} ELSE a.rep = 0 /\ ~a.cached)
   /\ (~s.closed /\ ~(a.animated /\ s.anim) => s.tell # -1)
 
@@ -151,7 +160,9 @@ ApDraw(s, a) ==
     \* the image's frame is put back; the draw's own files are closed.  One file may be
     \* left to the collector: the iterator's constructor opens a second copy that is
     \* replaced before use (tolerated, see notes/C11.md W1)
-    R(s, a, s, "ok", NoFrame, TRUE, GcIfFile(s), FALSE, a.rep * N)
+    \* afterwards the size setting is what the user set last, not what it was on entry
+    R(s, a, IF a.during = "" THEN s ELSE [s EXCEPT !.size = a.during],
+      "ok", NoFrame, TRUE, GcIfFile(s), FALSE, a.rep * N)
   ELSE
     R(s, a, s, "ok", Frame(Tell(s), DefaultSpec, RSize(s)), TRUE, 0, FALSE, 1)
 
